@@ -152,7 +152,7 @@ Proof.
            destruct (pos_of _ _ _) as [a b]. destruct (pos_of _ _ _) as [a' b']. simpl.
            destruct (apply_gate2_at_keeps vi k2 g b b' s1) as [A B]. destruct HM as [C D]. split; auto. congruence.
         -- unfold add_register_force.
-           set (nd1 := mkNode _ _ _ _ _ _ _). set (r := mkReg _ _ _ _).
+           set (nd1 := mkNode _ _ _ _ _ _ _). set (r := mkReg _ _ _ _ _).
            assert (K0 : (cap_inv s -> cap_inv (set_node s vi nd1)) /\ caps_of (set_node s vi nd1) = caps_of s).
            { split.
              - intros H. apply cap_set; auto. pose proof (cap_nth s vi H) as Hn. unfold cap_ok in *; simpl; auto.
